@@ -42,6 +42,9 @@ CLAIMS = {
  "C02": dict(engine="coq-layer-m", tech="Coq proof (maximum principle, self-adjointness => reciprocity and charge balance, symmetrisability of the assembled cable system, traced-formula identities) + exact evaluation of the identities on the implementation",
    text="Full for the model: for every sorted tree, all positive parameters and every dt > 0, Coq proves that the backward-Euler step of a passive unstimulated cell keeps every voltage (branch points included) between the extremes of previous voltages and reversal potentials, that uniform stays uniform, and that the assembled system is symmetrisable (weights cm*r*l per compartment, one constant per branch point), from which reciprocity and charge balance are proved for arbitrary tree systems; the traced conductance formulas are proved reciprocal / proportional and the stimulus conversion area-exact. The implementation's outputs (3 backends, dt up to 1e9) are checked against the four identities in exact rational arithmetic.",
    note=M_NOTE + " The specialisation of the generic charge-balance/reciprocity statements to sums over compartments is evaluated on the implementation, not restated as a separate theorem.", ref="DESIGN.md §5 C02"),
+ "C05": dict(engine="coq-layer-g", tech="Coq proofs of differentiability / derivative formulas of the traced building blocks, gradient-safety of the guards, exact selection of trainables, checkpoint invariance + jax.grad vs converged central finite differences on the implementation",
+   text="Partial: Coq proves (over definitions regenerated from the code) that both branches of the singularity guards are defined for every input (no NaN can reach reverse-mode AD through the unused branch), derivative formulas of the gate updates in the state and of the clipped exponential away from the clip, differentiability of the axial conductances in all geometric/electrical parameters on positive parameters, that trainables enter the parameter arrays as an exact selection, and that nested checkpointing computes the same function. That jax.grad of the whole traced simulation equals the derivative is NOT proved (JAX's AD is trusted); it is decided by comparing jax.grad with central finite differences (float64, step sweep) over trainable keys, sharing patterns, solvers, backends, checkpoint layouts, data_stimulate/data_set inputs and synapse parameters/states.",
+   note=G_NOTE + " JAX AD and jax.checkpoint are trusted. Coquelicot (classic) under the derivative theorems.", ref="DESIGN.md §5 C05"),
  "C06": dict(engine="coq-layer-m", tech="Coq proof about an executable model of nested_checkpoint_scan/integrate + direct predicate on the implementation",
    text="Partial: proved (axiom-free, any nesting depth, any lengths whose product covers the run) that nested_checkpoint_scan equals lax.scan and that integrate's recordings do not depend on checkpoint_lengths or on the zero padding. jit/vmap equivalence, bit-identical repetition and purity of integrate (deep snapshot of the module) are decided by the direct predicate on sampled models: they live in XLA/JAX and CPython object identity, which no Coq model of this code can exhibit.",
    note=M_NOTE + " Trusted: XLA/jit/vmap preserve the semantics of a pure traced function; jax.checkpoint is the identity.", ref="DESIGN.md §5 C06"),
